@@ -485,14 +485,14 @@ class StmtMixin:
         st.assume(n >= 0)
         label = 'loop%d' % idx
         # initiation
-        st.locals['_it'] = lst
-        st.locals['_k'] = Sc(z3.IntVal(0), INT)
+        st.locals['_it'] = st.locals['_it%d' % idx] = lst
+        st.locals['_k'] = st.locals['_k%d' % idx] = Sc(z3.IntVal(0), INT)
         self.check_invs(spec, st, frame, node, label + ':init')
         # havoc
         pre_loop = st.fork()
         self.havoc_loop(node, spec, st, frame)
         k = fresh('k', z3.IntSort())
-        st.locals['_k'] = Sc(k, INT)
+        st.locals['_k'] = st.locals['_k%d' % idx] = Sc(k, INT)
         st.assume(z3.And(0 <= k, k <= n))
         self.assume_invs(spec, st, frame)
         src_has0 = self.c_has_arr(src, st) if (src is not None and not src.frozen) else None
@@ -514,8 +514,8 @@ class StmtMixin:
         for s in self.assign(node.target, item, s_body, frame, node):
             for o in self.exec_block(node.body, s, frame):
                 if o.kind in ('normal', 'continue'):
-                    o.st.locals['_k'] = Sc(k + 1, INT)
-                    o.st.locals['_it'] = lst
+                    o.st.locals['_k'] = o.st.locals['_k%d' % idx] = Sc(k + 1, INT)
+                    o.st.locals['_it'] = o.st.locals['_it%d' % idx] = lst
                     if src_has0 is not None:
                         self.oblige(o.st, self.c_has_arr(src, o.st) == src_has0, label + ':iter-mutation', frame, node,
                                     'container changed size during iteration')
